@@ -93,6 +93,9 @@ func RunSeed(seed uint64, prop string, idx int) uint64 {
 	return Mix(seed, HashString(prop), uint64(idx))
 }
 
+// NewScratchRun makes a run context outside any check (used by Setup code that reuses builders which log/draw).
+func NewScratchRun(t *Tape) *Run { return newRun("setup", 0, t, nil, false) }
+
 // RunResult is what executing one tape gives.
 type RunResult struct {
 	Run   *Run
